@@ -581,7 +581,7 @@ def fam_reentrant(g, prefix, n_random):
         init = ["0"] if kind == "behavior" else []
         for name in sorted(ops) + ["none"]:
             for act in (["hnext", "a", "2"], ["hcomplete", "a"], "unsub", ["herror", "a", "6"], ["sub", ["ref", "a"]]):
-                for idx in ("0", "1"):
+                for idx in ("0", "1", "2"):      # (index 2 is the terminal callback of the drive below)
                     g.tag = 0
                     p = ops[name](["ref", "a"]) if name != "none" else ["ref", "a"]
                     steps = [["subject", "a", kind] + init, ["sub", p, ["react", [idx, act]]],
